@@ -19,6 +19,8 @@ struct Case {
     wseed: u32,
     dseed: u32,
     softmax: bool,
+    /// activation the output layer is switched to with `set_activation` after construction (None = untouched)
+    switch_to: Option<ActK>,
 }
 
 fn decode(tape: &[u32]) -> Case {
@@ -37,7 +39,13 @@ fn decode(tape: &[u32]) -> Case {
         1 => t.usize(1, 20),
         _ => t.usize(21, 300),
     };
-    Case { spec, obj, tol, n, wseed: t.raw(), dseed: t.raw(), softmax }
+    // one case in four: the output activation is changed after construction, across the soft-max boundary or not
+    let switch_to = if t.chance(1, 4) {
+        Some(if prob { [ActK::Softmax, ActK::Sigmoid][t.pick(2)] } else { [ActK::Softmax, ActK::Linear, ActK::Tanh, ActK::Sigmoid][t.pick(4)] })
+    } else {
+        None
+    };
+    Case { spec, obj, tol, n, wseed: t.raw(), dseed: t.raw(), softmax, switch_to }
 }
 
 fn check(case: &Case, ev: &mut CaseEv) -> CheckResult {
@@ -50,6 +58,13 @@ fn check(case: &Case, ev: &mut CaseEv) -> CheckResult {
     let ps = seeded_params(&net, spec, case.wseed, 1, 1.0);
     apply_params(&mut net, &ps);
     net.set_objective(lib_obj(case.obj), None);
+    let mut softmax_now = case.softmax;
+    if let Some(act) = case.switch_to {
+        let last = net.layers.len() - 1;
+        catch(std::panic::AssertUnwindSafe(|| net.set_activation(last, lib_act(act)))).map_err(|p| Fail::new(format!("set_activation panicked: {p}")))?;
+        softmax_now = act == ActK::Softmax;
+        ev.class(if softmax_now != case.softmax { "output activation switched across the soft-max boundary" } else { "output activation switched" });
+    }
     let objf = objective::Function::create(lib_obj(case.obj), None);
     let n_in = count(&spec.input);
     let n_out = count(&final_dims(spec));
@@ -72,7 +87,7 @@ fn check(case: &Case, ev: &mut CaseEv) -> CheckResult {
         .iter()
         .map(|p| {
             let pf = tens::flat(p);
-            let tv: Vec<f32> = if case.softmax {
+            let tv: Vec<f32> = if softmax_now {
                 let am = pf.iter().enumerate().fold((0usize, f32::MIN), |a, (i, v)| if *v > a.1 { (i, *v) } else { a }).0;
                 let hot = if m.below(2) == 0 { am } else { m.below(n_out as u64) as usize };
                 (0..n_out).map(|i| if i == hot { 1.0 } else { 0.0 }).collect()
@@ -124,7 +139,7 @@ fn check(case: &Case, ev: &mut CaseEv) -> CheckResult {
         loss_sum += l as f64;
         loss_mag += (l as f64).abs();
         let (pf, tf) = (tens::flat(&preds[i]), tens::flat(&ts[i]));
-        if case.softmax {
+        if softmax_now {
             let maxp = pf.iter().cloned().fold(f32::MIN, f32::max);
             let maxt = tf.iter().cloned().fold(f32::MIN, f32::max);
             let ap: Vec<usize> = (0..n_out).filter(|j| pf[*j] == maxp).collect();
@@ -165,7 +180,7 @@ fn check(case: &Case, ev: &mut CaseEv) -> CheckResult {
     ensure!(
         va as f64 >= acc_lo / nf - slack && va as f64 <= acc_hi / nf + slack,
         "validate accuracy {:e} over {} samples (tolerance {:e}, {} output): by the stated rule it lies in [{:e}, {:e}]",
-        va, case.n, case.tol, if case.softmax { "soft-max" } else { "non-soft-max" }, acc_lo / nf, acc_hi / nf
+        va, case.n, case.tol, if softmax_now { "soft-max" } else { "non-soft-max" }, acc_lo / nf, acc_hi / nf
     );
     ev.nontrivial = case.n > 64 && case.n % 64 != 0 && mixed.0 && mixed.1;
     ev.set_sig(&(spec, case.obj, case.tol.to_bits(), case.n));
@@ -189,7 +204,7 @@ impl Prop for C12 {
         Some(3)
     }
     fn rule(&self) -> String {
-        "tape-decoded network (1-2 generated layers of any kind incl. feedback blocks + a final dense layer with soft-max or another activation), objective of 7, tolerance in {0, 1e-6, 1e-3, 0.1, 1, 1e30}, N in {1, 2, 63, 64, 65, 127, 128, 129, 200} or random 1..300; targets derived from the predictions so that components lie exactly on / at the tolerance / inside / outside it and one-hot targets agree or disagree with the arg-max. Oracle from public pieces: loss = mean of objective(predict(x), t) (order-free tolerance), accuracy interval by the stated rule (components at exactly the tolerance and arg-max ties may count either way), predict_batch[i] == predict(x_i) bitwise in order, predict == last activation of forward. Non-trivial: N > 64, N mod 64 != 0 and both scoring outcomes present. Distinct = (architecture, objective, tolerance, N).".into()
+        "tape-decoded network (1-2 generated layers of any kind incl. feedback blocks + a final dense layer with soft-max or another activation; in one case of four the output activation is changed afterwards with set_activation), objective of 7, tolerance in {0, 1e-6, 1e-3, 0.1, 1, 1e30}, N in {1, 2, 63, 64, 65, 127, 128, 129, 200} or random 1..300; targets derived from the predictions so that components lie exactly on / at the tolerance / inside / outside it and one-hot targets agree or disagree with the arg-max. Oracle from public pieces: loss = mean of objective(predict(x), t) (order-free tolerance), accuracy interval by the stated rule (components at exactly the tolerance and arg-max ties may count either way), predict_batch[i] == predict(x_i) bitwise in order, predict == last activation of forward. Non-trivial: N > 64, N mod 64 != 0 and both scoring outcomes present. Distinct = (architecture, objective, tolerance, N).".into()
     }
     fn run_case(&self, tape: &[u32], ev: &mut CaseEv) -> CheckResult {
         check(&decode(tape), ev)
